@@ -349,6 +349,10 @@ func (s *spaceService) spacePullWithPeer(ctx context.Context, p peer.Peer, id st
 		// the payload is a singular sub-message: a hostile or broken peer may omit it
 		return nil, spacesyncproto.ErrUnexpected
 	}
+	if res.Payload.SpaceHeader.GetId() != id {
+		// a valid payload of another space is not an answer to this pull
+		return nil, spacesyncproto.ErrUnexpected
+	}
 
 	st, err = s.createSpaceStorage(ctx, spacestorage.SpaceStorageCreatePayload{
 		AclWithId: &consensusproto.RawRecordWithId{
